@@ -298,7 +298,7 @@ impl<'cx> TyGenContext<'_, 'cx> {
 
                 let alloc = alloc_name(ty, &field.ty);
 
-                let struct_borrow_info = if let hir::Type::Struct(path) = &field.ty {
+                let struct_borrow_info = if let hir::Type::Struct(path) = field.ty.unwrap_option() {
                     StructBorrowInfo::compute_for_struct_field(ty, path, self.tcx).map(
                         |param_info| StructBorrowContext {
                             use_env: &ty.lifetimes,
